@@ -120,12 +120,17 @@ pub struct ExprArray {
 	ctx: Context,
 	src: Rc<Vec<Expr>>,
 	cached: Cc<RefCell<Vec<ArrayThunk>>>,
+	#[cfg(jrsonnet_verif)]
+	#[trace(skip)]
+	vid: usize,
 }
 impl ExprArray {
 	pub fn new(ctx: Context, src: Rc<Vec<Expr>>) -> Self {
 		Self {
 			ctx,
 			cached: Cc::new(RefCell::new(vec![ArrayThunk::Waiting; src.len()])),
+			#[cfg(jrsonnet_verif)]
+			vid: crate::verif::next_id(),
 			src,
 		}
 	}
@@ -147,7 +152,7 @@ impl ArrayLike for ExprArray {
 				ArrayThunk::Pending => "reenter",
 				ArrayThunk::Waiting => "start",
 			},
-			std::ptr::from_ref(&*self.cached) as usize,
+			self.vid,
 			index,
 		);
 		match &self.cached.borrow()[index] {
@@ -168,13 +173,13 @@ impl ArrayLike for ExprArray {
 			Err(e) => {
 				self.cached.borrow_mut()[index] = ArrayThunk::Errored(e.clone());
 				#[cfg(jrsonnet_verif)]
-				crate::verif::emit("earr", "fail", std::ptr::from_ref(&*self.cached) as usize, index);
+				crate::verif::emit("earr", "fail", self.vid, index);
 				return Err(e);
 			}
 		};
 		self.cached.borrow_mut()[index] = ArrayThunk::Computed(new_value.clone());
 		#[cfg(jrsonnet_verif)]
-		crate::verif::emit("earr", "finish", std::ptr::from_ref(&*self.cached) as usize, index);
+		crate::verif::emit("earr", "finish", self.vid, index);
 		Ok(Some(new_value))
 	}
 	fn get_lazy(&self, index: usize) -> Option<Thunk<Val>> {
@@ -435,6 +440,9 @@ pub struct MappedArray {
 	inner: ArrValue,
 	cached: Cc<RefCell<Vec<ArrayThunk>>>,
 	mapper: ArrayMapper,
+	#[cfg(jrsonnet_verif)]
+	#[trace(skip)]
+	vid: usize,
 }
 impl MappedArray {
 	pub fn new(inner: ArrValue, mapper: ArrayMapper) -> Self {
@@ -443,6 +451,8 @@ impl MappedArray {
 			inner,
 			cached: Cc::new(RefCell::new(vec![ArrayThunk::Waiting; len])),
 			mapper,
+			#[cfg(jrsonnet_verif)]
+			vid: crate::verif::next_id(),
 		}
 	}
 	fn evaluate(&self, index: usize, value: Val) -> Result<Val> {
@@ -470,7 +480,7 @@ impl ArrayLike for MappedArray {
 				ArrayThunk::Pending => "reenter",
 				ArrayThunk::Waiting => "start",
 			},
-			std::ptr::from_ref(&*self.cached) as usize,
+			self.vid,
 			index,
 		);
 		match &self.cached.borrow()[index] {
@@ -498,13 +508,13 @@ impl ArrayLike for MappedArray {
 			Err(e) => {
 				self.cached.borrow_mut()[index] = ArrayThunk::Errored(e.clone());
 				#[cfg(jrsonnet_verif)]
-				crate::verif::emit("marr", "fail", std::ptr::from_ref(&*self.cached) as usize, index);
+				crate::verif::emit("marr", "fail", self.vid, index);
 				return Err(e);
 			}
 		};
 		self.cached.borrow_mut()[index] = ArrayThunk::Computed(new_value.clone());
 		#[cfg(jrsonnet_verif)]
-		crate::verif::emit("marr", "finish", std::ptr::from_ref(&*self.cached) as usize, index);
+		crate::verif::emit("marr", "finish", self.vid, index);
 		Ok(Some(new_value))
 	}
 	fn get_lazy(&self, index: usize) -> Option<Thunk<Val>> {
